@@ -22,7 +22,7 @@ TReturn == /\ IsEvent("Return") /\ Done
            /\ \/ result = Trace[l].result
               \/ (Literal(c) = "either" /\ result # "refused" /\ Trace[l].result \in {"ok", "reject"})
               \* an explicitly empty expectation may be refused or converted; if converted the verdict is the literal one
-              \/ (mode = "policy" /\ ExplicitEmpty(c) /\ ~Malformed(c) /\ Trace[l].result \in {"refused", Literal(c)})
+              \/ (IsPolicy(mode) /\ ExplicitEmpty(c) /\ ~Malformed(c) /\ Trace[l].result \in {"refused", Literal(c)})
            /\ Trace[l].rawSame
            /\ result' = "returned" /\ UNCHANGED <<c, mode, pc, errs>>
 TNext == (TCall \/ Silent \/ TReturn) /\ Mark(l')
